@@ -57,6 +57,98 @@ pub fn deploy_payload(env: &Env, origin: &[u8], tid: &[u8; 32], name: &[u8], sym
     };
     m.abi_encode(env).unwrap().to_alloc_vec()
 }
+fn abi_word(n: usize) -> [u8; 32] {
+    let mut w = [0u8; 32];
+    w[24..].copy_from_slice(&(n as u64).to_be_bytes());
+    w
+}
+fn abi_padded(b: &[u8]) -> Vec<u8> {
+    let mut v = b.to_vec();
+    while v.len() % 32 != 0 {
+        v.push(0);
+    }
+    v
+}
+/// the receive-from-hub wrapper, encoded by hand around ARBITRARY inner bytes (the contract's own encoder can only wrap what it
+/// itself encodes)
+pub fn wrap_raw(origin: &[u8], inner: &[u8]) -> Vec<u8> {
+    let mut out = vec![];
+    out.extend_from_slice(&abi_word(4));
+    out.extend_from_slice(&abi_word(0x60));
+    out.extend_from_slice(&abi_word(0x60 + 32 + abi_padded(origin).len()));
+    out.extend_from_slice(&abi_word(origin.len()));
+    out.extend_from_slice(&abi_padded(origin));
+    out.extend_from_slice(&abi_word(inner.len()));
+    out.extend_from_slice(&abi_padded(inner));
+    out
+}
+/// the inner message bytes of a wrapped payload
+pub fn unwrap_raw(p: &[u8], origin_len: usize) -> Vec<u8> {
+    let at = 96 + 32 + ((origin_len + 31) / 32) * 32;
+    let len = u64::from_be_bytes(p[at + 24..at + 32].try_into().unwrap()) as usize;
+    p[at + 32..at + 32 + len].to_vec()
+}
+/// payloads whose OUTER encoding is canonical while the wrapped message is not the canonical encoding of anything: extra bytes
+/// behind it, a dirty padding byte inside it, a gap between its head and its tails (all offsets moved along)
+pub fn noncanonical_inner(origin: &[u8], good: &[u8], transfer: bool) -> Vec<(Vec<u8>, &'static str)> {
+    let inner = unwrap_raw(good, origin.len());
+    assert_eq!(wrap_raw(origin, &inner), good, "hand-written wrapper disagrees with the contract's encoder");
+    let mut out = vec![];
+    let mut v = inner.clone();
+    v.extend_from_slice(&[0u8; 32]);
+    out.push((wrap_raw(origin, &v), "inner-trailing-word"));
+    let mut v = inner.clone();
+    v.extend_from_slice(&abi_word(1));
+    out.push((wrap_raw(origin, &v), "inner-trailing-nonzero-word"));
+    let mut v = inner.clone();
+    v.push(0);
+    out.push((wrap_raw(origin, &v), "inner-trailing-byte"));
+    let mut v = inner.clone();
+    v.truncate(inner.len() - 32);
+    out.push((wrap_raw(origin, &v), "inner-truncated-word"));
+    if !transfer {
+        // head: type, id, off(name), off(symbol), decimals, off(minter): a decimals word that is no uint8 (0x0112, 2^16 + 18)
+        let mut v = inner.clone();
+        v[128 + 30] = 1;
+        out.push((wrap_raw(origin, &v), "inner-decimals-0x01xx"));
+        let mut v = inner.clone();
+        v[128 + 29] = 1;
+        out.push((wrap_raw(origin, &v), "inner-decimals-0x01xxxx"));
+        let mut v = inner.clone();
+        v[128] = 0x80;
+        out.push((wrap_raw(origin, &v), "inner-decimals-top-bit"));
+    }
+    if transfer {
+        // head: type, id, off(src), off(dest), amount, off(data); tails in that order
+        let off = |k: usize| u64::from_be_bytes(inner[32 * k + 24..32 * k + 32].try_into().unwrap()) as usize;
+        let (o_src, o_dest, o_data) = (off(2), off(3), off(5));
+        let dest_len = u64::from_be_bytes(inner[o_dest + 24..o_dest + 32].try_into().unwrap()) as usize;
+        let src_len = u64::from_be_bytes(inner[o_src + 24..o_src + 32].try_into().unwrap()) as usize;
+        if dest_len % 32 != 0 {
+            let mut v = inner.clone();
+            v[o_dest + 32 + abi_padded(&vec![0; dest_len]).len() - 1] = 1;
+            out.push((wrap_raw(origin, &v), "inner-dirty-padding-after-recipient"));
+        }
+        if src_len % 32 != 0 {
+            let mut v = inner.clone();
+            v[o_src + 32 + src_len] = 0xff;
+            out.push((wrap_raw(origin, &v), "inner-dirty-padding-after-sender"));
+        }
+        // a 32-byte gap between head and tails
+        let mut v = inner[..192].to_vec();
+        v.extend_from_slice(&[0u8; 32]);
+        v.extend_from_slice(&inner[192..]);
+        for (k, o) in [(2usize, o_src), (3, o_dest), (5, o_data)] {
+            v[32 * k..32 * k + 32].copy_from_slice(&abi_word(o + 32));
+        }
+        out.push((wrap_raw(origin, &v), "inner-gap-before-tails"));
+        // the empty data tail shared with nothing: offsets of sender and recipient exchanged together with their tails is still
+        // canonical only in one order — exchange the two OFFSETS only when both fields have equal length (then the decoded
+        // message differs; skip otherwise)
+    }
+    out
+}
+
 pub fn addr_xdr(env: &Env, a: &Addr) -> Vec<u8> {
     a.sdk(env).to_xdr(env).to_alloc_vec()
 }
@@ -410,6 +502,21 @@ pub fn gen_c04(run: &mut Run, seed: u64, thorough: bool) {
             p.extend_from_slice(&[0u8; 32]);
             i.deliver(&p, "payload-padded-word");
             i.deliver(&[0u8; 16], "payload-16-bytes");
+            // canonical wrapper around a NON-canonical message (transfer and deploy)
+            for (p, nm) in noncanonical_inner(b"ethereum", &good, true) {
+                i.deliver(&p, &format!("{nm}-{which}"));
+            }
+            {
+                let mut t3 = [0x55u8; 32];
+                t3[0] = r as u8;
+                t3[1] = h as u8;
+                let dep = deploy_payload(&env, b"ethereum", &t3, b"Odd", b"ODD", 7, None);
+                for (p, nm) in noncanonical_inner(b"ethereum", &dep, false) {
+                    i.deliver(&p, &format!("deploy-{nm}"));
+                    i.op(&format!("its.token_address {}", hex::encode(t3)), "q");
+                }
+            }
+            i.sweep(&holders);
             // insufficient custody / overflow
             if which == "canonical" {
                 let p = transfer_payload(&env, b"ethereum", &tid, b"0xsrc", &dest, 100000, None);
@@ -607,6 +714,14 @@ pub fn gen_c05(run: &mut Run, seed: u64, thorough: bool) {
                 }
                 i.sweep(&holders);
             }
+        }
+        // directed: a canonical wrapper around a transfer message that is not canonically encoded, for a token of each kind
+        for (tid, kind) in [(ids[0].0, ids[0].1), (ids[2].0, ids[2].1)] {
+            let good = transfer_payload(&env, b"ethereum", &tid, b"0xRemoteSender", &addr_xdr(&env, &users[0]), 2, None);
+            for (p, nm) in noncanonical_inner(b"ethereum", &good, true) {
+                i.deliver(&p, &format!("inbound-{kind}-directed-{nm}"));
+            }
+            i.sweep(&holders);
         }
         // directed: announced amounts that do not fit (one high bit of the uint256 amount word set), for a token of each kind
         for (tid, kind) in [(ids[0].0, ids[0].1), (ids[2].0, ids[2].1)] {
@@ -807,6 +922,22 @@ pub fn gen_c11(run: &mut Run, seed: u64, thorough: bool) {
                 i.deliver(&p, &format!("remote-deploy-corrected-after-{label}"));
                 i.op(&format!("its.token_address {}", hex::encode(t)), "q");
             }
+            // a deploy message that is not canonically encoded inside a canonical wrapper (bytes behind it, a decimals word that
+            // is no uint8, …): refused, the id stays free, and the well-formed message for the same id still deploys
+            {
+                let mut t = [0x94u8; 32];
+                t[2] = r as u8;
+                let good = deploy_payload(&env, b"avalanche", &t, b"Remote", b"RMT", 18, None);
+                for (p, nm) in noncanonical_inner(b"avalanche", &good, false) {
+                    i.deliver(&p, &format!("remote-deploy-{nm}"));
+                    i.op(&format!("its.token_address {}", hex::encode(t)), "q");
+                }
+                i.deliver(&good, "remote-deploy-wellformed-after-noncanonical");
+                i.op(&format!("its.token_address {}", hex::encode(t)), "q");
+                if let Some(a) = i.op(&format!("its.token_address {}", hex::encode(t)), "q").split(' ').nth(1).map(Addr::parse) {
+                    i.op(&format!("tok.meta {}", a.tok()), "q");
+                }
+            }
             for (k, minter) in [None, Some(users[2].clone()), Some(its.clone())].into_iter().enumerate() {
                 let mut t = [0x90u8; 32];
                 t[1] = k as u8;
@@ -854,6 +985,12 @@ pub fn gen_c18(run: &mut Run, seed: u64, thorough: bool) {
             (b"Max", b"MAX", 255, "dec255"),
             (b"Over", b"OVR", 256, "dec256"),
             (b"Wrap", b"WRP", 263, "dec263"),
+            (b"W16", b"WSX", 65536, "dec2^16"),
+            (b"W16b", b"WSY", 65542, "dec2^16+6"),
+            (b"W24", b"WTF", 0x0100_0012, "dec2^24+18"),
+            (b"W31", b"WTO", 0x8000_0007, "dec2^31+7"),
+            (b"W32", b"WTT", u32::MAX, "dec-u32max"),
+            (b"W15", b"WFT", 0x7f00, "dec0x7f00"),
             (b"", b"EMP", 7, "empty-name"),
             (b"NoSym", b"", 7, "empty-symbol"),
             (&[0xff, 0xfe], b"BAD", 7, "non-utf8-name"),
